@@ -42,6 +42,14 @@ CLAIMED.update({
              text="Decides: no state effect (array growth, cache update, property resize, call of a state-changing kernel member) on any path to a rejecting/deduplicating return of add_edge/add_face/add_cell and the tet/hex overrides; the accepting path appends exactly one definition built from the argument and returns size()-1; tet/hex valence guards 3/4/3 and 4/6/4; add_face checks every consecutive pair and last-to-first; add_cell's sort/adjacent_find/unique pipeline; add_edge dedup in both branches and both orientations. Not decided: that the predicate characterises closed surfaces.",
              design="3/C11, 2/N"),
 })
+CLAIMED.update({
+ "C13": dict(technique="static analysis: ownership rules over record field types and the copy paths (type-directed flow of storage pointers, clone/detach/attach protocol, template-argument agreement across all seven entity instantiations)",
+             text="Decides: kernel members have value semantics and defaulted copy operations; ResourceManager/GeometryKernel have user-provided copy operations in which only clone() results are inserted, attached to the target's tracker of the same entity tag, iterating only the persistent set; operator= has the self-assignment guard, anonymises, resizes all seven kinds to the source's counts, then clones; PropertyStorageT::clone copy-constructs from *this and detaches; Tracker copies never read the source's set. Not decided: value equality of the copy.",
+             design="3/C13"),
+ "C14": dict(technique="static analysis: guard-fact and N (no effect before throw) rules over all template instantiations of the registry functions, flag/set synchronisation, tracking back-pointer protocol, iteration-mutation check",
+             text="Decides: internal_find_property rejects the empty name and matches shared/name/type; create_* only after a failed lookup; request_property finds before creating; transition guards of set_shared/set_persistent with nothing changed before a throw; persistent set and flags change together (incl. clear_props); Tracked/Tracker protocol; no range-for mutates the set it walks. Two genuine defects are recorded as known findings (set_name bypass F16, down-cast of this in Tracked's ctor/dtor F21). Not decided: lifetime safety under arbitrary destruction orders beyond the protocol.",
+             design="3/C14"),
+})
 NOT_YET = {}
 NA = {
  "C10": "soundness/completeness of the lookup queries against a brute-force search is an equality over runtime values of small search loops; no structural necessary condition exists that is not a brittle proxy (DESIGN 3/C10)",
